@@ -15,7 +15,7 @@ open Lean NiftyVerif.Proto NiftyVerif.LikelihoodRe
     vcgauss    : "sidx":[per mean coordinate: index of its inverse-std element], "cx":[per inverse-std element: bool]
     vcstudt    : "dof":[per element]
     categorical: "grp":[k]
-    ndvc       : "d", "cov": bool, "B" blocks; y = B*d means then B*d*d matrices; supported for d ≤ 2
+    ndvc       : "d", "cov": bool, "B" blocks; y = B*d means then B*d*d matrices; d ≤ 2 closed forms, d = 3, 4 Gauss–Jordan + Denman–Beavers
   Errors: {"error": kind}.
 -/
 
@@ -75,6 +75,55 @@ def sqrt2 (d : Nat) (A : Fin d → Fin d → F) : Fin d → Fin d → F :=
                 + (if i.val = j.val then s else 0.0)) / t
   else fun _ _ => 0.0 / 0.0
 
+/-! general `d` (used for `d ≥ 3`): the library computes `solve` / `sqrtm` through `eigh`; the driver — which only has
+    to reproduce the VALUES of `A⁻¹` and `A^{1/2}` to 1e-9 — uses Gauss–Jordan elimination and the Denman–Beavers
+    iteration (`Y ← (Y + Z⁻¹)/2`, `Z ← (Z + Y⁻¹)/2`, `Y → A^{1/2}`, quadratically convergent and stable for SPD `A`).
+    In the theorems both stay abstract (hypotheses `S S = A`, `Si S = 1`, `Ai A = 1` of `L_Lh_eq_M_ndvc`). -/
+abbrev Mat := Array (Array F)
+
+def arrOfMat (d : Nat) (A : Fin d → Fin d → F) : Mat := Array.ofFn (n := d) fun i => Array.ofFn (n := d) fun j => A i j
+def matOfArr (d : Nat) (M : Mat) : Fin d → Fin d → F := fun i j => (M[i.val]!)[j.val]!
+
+/-- Gauss–Jordan inverse with partial pivoting -/
+def invArr (d : Nat) (A : Mat) : Mat := Id.run do
+  let w := 2 * d
+  let mut M : Mat := Array.ofFn (n := d) fun i => Array.ofFn (n := w) fun j =>
+    if j.val < d then (A[i.val]!)[j.val]! else if j.val - d = i.val then 1.0 else 0.0
+  for c in [0:d] do
+    let mut p := c
+    for r in [c+1:d] do
+      if Float.abs ((M[r]!)[c]!) > Float.abs ((M[p]!)[c]!) then p := r
+    let rowp := M[p]!
+    let rowc0 := M[c]!
+    M := (M.set! p rowc0).set! c rowp
+    let piv := (M[c]!)[c]!
+    let rowc := (M[c]!).map fun x => x / piv
+    M := M.set! c rowc
+    for r in [0:d] do
+      if r != c then
+        let rowr := M[r]!
+        let f := rowr[c]!
+        M := M.set! r (Array.ofFn (n := w) fun j => rowr[j.val]! - f * rowc[j.val]!)
+  return Array.ofFn (n := d) fun i => Array.ofFn (n := d) fun j => (M[i.val]!)[d + j.val]!
+
+def sqrtArr (d : Nat) (A : Mat) : Mat := Id.run do
+  let avg (X Y : Mat) : Mat := Array.ofFn (n := d) fun i => Array.ofFn (n := d) fun j =>
+    ((X[i.val]!)[j.val]! + (Y[i.val]!)[j.val]!) / 2.0
+  let mut Y := A
+  let mut Z : Mat := Array.ofFn (n := d) fun i => Array.ofFn (n := d) fun j => if i.val = j.val then 1.0 else 0.0
+  for _ in [0:30] do
+    let Yi := invArr d Y
+    let Zi := invArr d Z
+    Y := avg Y Zi
+    Z := avg Z Yi
+  return Y
+
+/-- inverse / principal square root for every `d`, evaluated ONCE (strict arrays) -/
+def invD (d : Nat) (A : Fin d → Fin d → F) : Fin d → Fin d → F :=
+  if d ≤ 2 then matOfArr d (arrOfMat d (inv2 d A)) else matOfArr d (invArr d (arrOfMat d A))
+def sqrtD (d : Nat) (A : Fin d → Fin d → F) : Fin d → Fin d → F :=
+  if d ≤ 2 then matOfArr d (arrOfMat d (sqrt2 d A)) else matOfArr d (sqrtArr d (arrOfMat d A))
+
 def buildBase (j : Json) (k : Nat) (y : Array F) : Option (Base k) := do
   let kind ← fStr? j "kind"
   let yv := vecOf y k
@@ -120,30 +169,35 @@ def buildBase (j : Json) (k : Nat) (y : Array F) : Option (Base k) := do
     let d ← fNat? j "d"
     let B ← fNat? j "B"
     let cov ← fBool? j "cov"
-    if d = 0 ∨ d > 2 then none else
+    if d = 0 ∨ d > 4 then none else
     let nm := B * d
     -- block b: matrix entries y[nm + b*d*d + r*d + c]
     let A (b : Nat) : Fin d → Fin d → F := fun r c => y[nm + b * d * d + r.val * d + c.val]!
+    -- per block, computed once: A⁻¹, S = A^{1/2}, S⁻¹ (strict arrays behind the functions)
+    let AiA : Array Mat := Array.ofFn (n := B) fun b => arrOfMat d (invD d (A b.val))
+    let SA : Array Mat := Array.ofFn (n := B) fun b => arrOfMat d (sqrtD d (A b.val))
+    let SiA : Array Mat := Array.ofFn (n := B) fun b => arrOfMat d (invD d (matOfArr d (SA[b.val]!)))
+    let Ai (b : Nat) : Fin d → Fin d → F := matOfArr d (AiA[b]!)
+    let S (b : Nat) : Fin d → Fin d → F := matOfArr d (SA[b]!)
+    let Si (b : Nat) : Fin d → Fin d → F := matOfArr d (SiA[b]!)
     let M : (Fin k → F) → (Fin k → F) := fun t i =>
       if i.val < nm then
         let b := i.val / d
         if h : i.val % d < d then
-          ndMmean cov (A b) (inv2 d (A b)) (fun c => t' t (b * d + c.val)) ⟨i.val % d, h⟩ else 0.0
+          ndMmean cov (A b) (Ai b) (fun c => t' t (b * d + c.val)) ⟨i.val % d, h⟩ else 0.0
       else
         let q := i.val - nm; let b := q / (d * d); let r := (q % (d * d)) / d; let c := q % d
         if h : r < d ∧ c < d then
-          ndMmat (inv2 d (A b)) (fun r' c' => t' t (nm + b * d * d + r'.val * d + c'.val)) ⟨r, h.1⟩ ⟨c, h.2⟩ else 0.0
+          ndMmat (Ai b) (fun r' c' => t' t (nm + b * d * d + r'.val * d + c'.val)) ⟨r, h.1⟩ ⟨c, h.2⟩ else 0.0
     let L : (Fin k → F) → (Fin k → F) := fun t i =>
       if i.val < nm then
         let b := i.val / d
-        let S := sqrt2 d (A b)
         if h : i.val % d < d then
-          ndLmean cov S (inv2 d S) (fun c => t' t (b * d + c.val)) ⟨i.val % d, h⟩ else 0.0
+          ndLmean cov (S b) (Si b) (fun c => t' t (b * d + c.val)) ⟨i.val % d, h⟩ else 0.0
       else
         let q := i.val - nm; let b := q / (d * d); let r := (q % (d * d)) / d; let c := q % d
-        let S := sqrt2 d (A b)
         if h : r < d ∧ c < d then
-          ndLmat (inv2 d S) (fun r' c' => t' t (nm + b * d * d + r'.val * d + c'.val)) ⟨r, h.1⟩ ⟨c, h.2⟩ else 0.0
+          ndLmat (Si b) (fun r' c' => t' t (nm + b * d * d + r'.val * d + c'.val)) ⟨r, h.1⟩ ⟨c, h.2⟩ else 0.0
     pure ⟨LR.ofML (toMat M) (toMat L), none⟩
   | _ => none
 where
